@@ -110,6 +110,9 @@ def build_harness(dest, race=False, pkg="."):
         cmd += ["-modfile", alt]
     if race:
         cmd.append("-race")
+    if os.environ.get("VERIF_COVER"):
+        # engineering aid (tools/cover.py): which statements of the repository the drivers of a check execute
+        cmd += ["-cover", "-covermode", "atomic" if race else "set", "-coverpkg", "github.com/named-data/ndnd/..."]
     cmd.append(pkg)
     t0 = time.time()
     p = subprocess.run(cmd, cwd=h, env=GOENV, stdout=subprocess.PIPE, stderr=subprocess.STDOUT, text=True)
@@ -125,6 +128,9 @@ def run_harness(binary, test, env=None, timeout=900, cwd=None, allow_fail=False)
     if env:
         e.update({k: str(v) for k, v in env.items()})
     cmd = [binary, "-test.run", "^%s$" % test, "-test.timeout", "%ds" % timeout, "-test.count", "1"]
+    if os.environ.get("VERIF_COVER"):
+        os.makedirs(os.environ["VERIF_COVER"], exist_ok=True)
+        cmd += ["-test.coverprofile", os.path.join(os.environ["VERIF_COVER"], "%s-%d-%d.out" % (test, os.getpid(), int(time.time() * 1000) % 1000000))]
     t0 = time.time()
     try:
         p = subprocess.run(cmd, cwd=cwd or os.path.dirname(binary), env=e, stdout=subprocess.PIPE,
